@@ -2114,7 +2114,11 @@ def _contains(token: TokenT, left: object, right: object) -> bool:
     if isinstance(left, str):
         return str(right) in left
     if isinstance(left, Collection):
-        return right in left
+        try:
+            return right in left
+        except TypeError:
+            # An unhashable item can't be a member of a mapping or set.
+            return False
 
     raise LiquidTypeError(
         f"'in' and 'contains' are not supported between '{left.__class__.__name__}' "
